@@ -194,6 +194,85 @@ theorem intersect_inside (le : M → M → Prop) (h : OrdLaws nu le) (a b : M ×
 example : OrdLaws (M := Int) { ofByte := fun n => n, toByte? := fun _ => none, asU8 := fun _ => 0, max := max, min := min } (· ≤ ·) :=
   ⟨Int.le_max_left, Int.le_max_right, Int.min_le_left, Int.min_le_right⟩
 
+/-! ### TileJSON ↔ JSON object -/
+
+/-- string / list / byte values survive `as_json_value` → `TileJsonValue::try_from` -/
+theorem tilejson_value_roundtrip (laws : TjLaws nu) (x : TJValue) (h : TJValue.WF x) :
+    TJValue.ofJson nu (TJValue.toJson nu x) = some x := value_roundtrip nu laws x h
+
+theorem tilejson_bounds_roundtrip (b : M × M × M × M) : boundsOfJson (boundsToJson b) = some b :=
+  bounds_roundtrip b
+
+theorem tilejson_center_roundtrip (laws : TjLaws nu) (c : M × M × Nat) (h : c.2.2 < 256) :
+    centerOfJson nu (centerToJson nu c) = some c := center_roundtrip nu laws c h
+
+/-- **C17d (partial)** — full statement: `fromObject (asObject t) = some t` for every well-formed
+    `TileJSON` (sorted maps, bytes < 256, `tilejson` key present, no generic value under the keys
+    `bounds`/`center`/`vector_layers`).  Proved here for all documents without the three typed
+    fields (arbitrarily many string/list/byte values under arbitrary other keys) and, separately,
+    for each typed field's own conversion (`tilejson_bounds_roundtrip`, `tilejson_center_roundtrip`).
+    Missing for the full statement: commuting the three typed insertions of `as_object` past the
+    generic ones in the `from_object` loop, and the nested object built per vector layer.  The full
+    statement is exercised on the real code by the oracle `tj-object-roundtrip` and against the
+    model by stream `C17t` on every run. -/
+theorem fromObject_asObject_partial (laws : TjLaws nu) (A B : List (Key × TJValue)) (w : TJValue)
+    (hs : SortedKeys (A ++ (kTilejson, w) :: B))
+    (hk : ∀ p ∈ A ++ (kTilejson, w) :: B, ¬ Typed p.1)
+    (hw : ∀ p ∈ A ++ (kTilejson, w) :: B, TJValue.WF p.2) :
+    let t : TileJSON M := { bounds := none, center := none, values := A ++ (kTilejson, w) :: B, layers := [] }
+    fromObject nu (asObject nu t) = some t :=
+  fromObject_asObject_values nu laws A B w hs hk hw
+
+/-- non-vacuity: a number type satisfying `TjLaws`, and a document satisfying the hypotheses -/
+def natNum : TjNum Nat :=
+  { ofByte := id, toByte? := fun n => if n ≤ 255 then some n else none, asU8 := fun n => if n ≤ 255 then n else 255, max := Nat.max, min := Nat.min }
+
+theorem natLaws : TjLaws natNum where
+  byte_rt := by intro b h; simp [natNum]; omega
+  u8_rt := by intro b h; simp [natNum]; omega
+
+example :
+    let vals : List (Key × TJValue) :=
+      [("maxzoom".toList, .byte 14), ("name".toList, .str "a\"b".toList)] ++ (kTilejson, .str "3.0.0".toList) :: [("tiles".toList, .list ["x".toList])]
+    fromObject natNum (asObject natNum { bounds := none, center := none, values := vals, layers := [] })
+      = some { bounds := none, center := none, values := vals, layers := [] } := by
+  intro vals
+  refine fromObject_asObject_partial natNum natLaws _ _ _ ?_ ?_ ?_
+  · simp only [SortedKeys, List.cons_append, List.nil_append, List.pairwise_cons, List.Pairwise.nil]; decide
+  · intro p hp; simp at hp; rcases hp with rfl | rfl | rfl | rfl <;> (simp only [Typed]; decide)
+  · intro p hp; simp at hp; rcases hp with rfl | rfl | rfl | rfl <;> simp [TJValue.WF]
+
+/-! ### served `tiles.json` = stored metadata + `tiles` template + narrowed bounds/zoom -/
+
+/-- **C17f**: the document served for a source carries the `tiles` URL template, `name`, `type`,
+    `format`; its bounds are the stored bounds intersected with the coverage; centre and vector
+    layers are the stored ones; every other key except `minzoom`/`maxzoom` has its stored value. -/
+theorem served_document (t : TileJSON M) (bbox : Option (M × M × M × M)) (zmin zmax : Option Nat)
+    (ty id fmt pre : List Char) :
+    let s := served nu t bbox zmin zmax ty id fmt pre
+    lookupKV "tiles".toList s.values = some (.list [pre ++ "{z}/{x}/{y}".toList]) ∧
+    lookupKV "name".toList s.values = some (.str id) ∧
+    lookupKV "type".toList s.values = some (.str ty) ∧
+    lookupKV "format".toList s.values = some (.str fmt) ∧
+    s.bounds = (updateFromPyramid nu t bbox zmin zmax).bounds ∧
+    s.center = t.center ∧ s.layers = t.layers ∧
+    ∀ k : Key, k ≠ "tiles".toList → k ≠ "name".toList → k ≠ "type".toList → k ≠ "format".toList →
+      lookupKV k s.values = lookupKV k (updateFromPyramid nu t bbox zmin zmax).values := by
+  have hf := update_frame nu t bbox zmin zmax
+  refine ⟨?_, ?_, ?_, ?_, rfl, hf.1, hf.2.1, ?_⟩
+  · simp [served, lookup_insert_same]
+  · simp only [served]
+    rw [lookup_insert_other _ _ (by decide), lookup_insert_other _ _ (by decide), lookup_insert_same]
+  · simp only [served]
+    rw [lookup_insert_other _ _ (by decide), lookup_insert_other _ _ (by decide),
+      lookup_insert_other _ _ (by decide), lookup_insert_same]
+  · simp only [served]
+    rw [lookup_insert_other _ _ (by decide), lookup_insert_same]
+  · intro k h1 h2 h3 h4
+    simp only [served]
+    rw [lookup_insert_other _ _ h1, lookup_insert_other _ _ h4, lookup_insert_other _ _ h2,
+      lookup_insert_other _ _ h3]
+
 end tilejson
 
 end VtProps.C17
